@@ -130,7 +130,8 @@ func finishLoad(repoDir, goos string, pkgs []*packages.Package, t0 time.Time) (*
 							}
 							es = append(es, fmt.Sprintf("illTyped=%v goVersion=%v", p.IllTyped, p.Module != nil && p.Module.GoVersion != ""))
 						}
-						fmt.Fprintf(os.Stderr, "SSA-BUILD-PANIC %s: %v; package errors: %v\n", pp, r, es); panic(r)
+						fmt.Fprintf(os.Stderr, "SSA-BUILD-PANIC %s: %v; package errors: %v\n", pp, r, es)
+						panic(r)
 					}
 				}()
 				sp.Build()
